@@ -16,7 +16,7 @@ import numpy as np
 from .. import real
 
 LEVEL = "exploration"
-TECHNIQUE = "runtime monitoring: plain function as specification - every decorated callable kind is called with well- and ill-typed arguments under every switch (JAXTYPING_DISABLE spellings in fresh subprocesses, config.update at every moment relative to decoration and call, typing.no_type_check above/below) and compared on result identity, exception, side-effect log and the bindings the body sees; switching back must restore rejection; objects (annotations, PyTree subscriptions, pickles, copies, decorated callables, hooked modules) made while checking is off and used after it is on again; config.update flips after every environment default; the pytest front end with a conftest"
+TECHNIQUE = "runtime monitoring: plain function as specification - every decorated callable kind is called with well- and ill-typed arguments under every switch (JAXTYPING_DISABLE spellings in fresh subprocesses, config.update at every moment relative to decoration and call, typing.no_type_check above/below) and compared on result identity, exception, side-effect log and the bindings the body sees; switching back must restore rejection; objects (annotations, PyTree subscriptions, pickles, copies, decorated callables, hooked modules) made while checking is off and used after it is on again; config.update flips after every environment default; the pytest front end with a conftest; config.update made from a __repr__ during error formatting; the same function wrapped again while a no_type_check'ed wrapper of it exists"
 LEVEL_TEXT = (
     "All case variants of 0/1/true/false and a list of illegal spellings are enumerated for both the environment variable "
     "(fresh process each) and config.update; all callable kinds x both typecheckers x toggle moments x well/ill-typed "
